@@ -477,7 +477,54 @@ def rule_nested_validated_(ctx: Ctx, rep: Report) -> None:
     rule_nested_validated(ctx, rep, "C18.nested_validated", ('btclib.psbt', 'btclib.tx'), 6)
 
 
+def rule_taproot_sig_size_by_type(ctx: Ctx, rep: Report) -> None:
+    """C18.taproot_sig_size_by_type: a BIP341 key path signature is 64 bytes under
+    SIGHASH_DEFAULT (field absent or 0) and 65 under every other type BIP341
+    admits -- 1, 2, 3 and their ANYONECANPAY forms 0x81, 0x82, 0x83. The
+    answer of `_taproot_sig_size` is folded for each of those eight field
+    values and compared."""
+    import copy
+    from sa.consts import Unknown
+    rule = "C18.taproot_sig_size_by_type"
+    fi = ctx.func("btclib.psbt.psbt_size._taproot_sig_size")
+    rets = sorted((r for r in own_nodes(fi.node) if isinstance(r, ast.Return) and r.value is not None), key=lambda r: r.lineno)
+    if len(rets) != 1 or not fi.node.args.args:
+        rep.unknown(rule, "_taproot_sig_size", fi.where(), "not a single-return function of the input")
+        return
+    par = fi.node.args.args[0].arg
+    local = {a.targets[0].id: a.value for a in own_nodes(fi.node) if isinstance(a, ast.Assign) and len(a.targets) == 1 and isinstance(a.targets[0], ast.Name)}
+
+    class Sub(ast.NodeTransformer):
+        def visit_Attribute(self, n):
+            if isinstance(n.value, ast.Name) and n.value.id == par and n.attr == "sig_hash_type":
+                return ast.Name(id="__sht", ctx=ast.Load())
+            return self.generic_visit(n)
+
+        def visit_Name(self, n):
+            if n.id in local and isinstance(n.ctx, ast.Load):
+                return self.visit(copy.deepcopy(local[n.id]))
+            return n
+
+    expr = Sub().visit(copy.deepcopy(rets[0].value))
+    try:
+        base = ctx.fold(ast.Name(id="SCHNORR_SIG_SIZE", ctx=ast.Load()), fi.module)
+    except Unknown:
+        base = 64
+    for v in (None, 0, 1, 2, 3, 0x81, 0x82, 0x83):
+        try:
+            got = ctx.fold(expr, fi.module, {"__sht": v})
+        except Unknown as e:
+            rep.unknown(rule, f"sig_hash_type={v!r}", fi.where(rets[0]), f"not folded: {e}")
+            continue
+        want = base + (0 if v in (None, 0) else 1)
+        rep.ob(rule, f"sig_hash_type={v!r}", got == want, fi.where(rets[0]),
+               f"{got} bytes" if got == want else f"`{norm(rets[0])}` is {got} bytes where a signature under sig_hash type {v!r} is {want}")
+    rep.floor(rule, 8)
+
+
 RULES = [
+    ("C18.taproot_sig_size_by_type", rule_taproot_sig_size_by_type),
+
     ("C18.nested_validated", rule_nested_validated_),
 
     ("C18.ctor_copies_containers", rule_ctor_copies_containers_),
